@@ -905,10 +905,19 @@ func (P *Prog) buildModCG() *modCG {
 					}
 				}
 			case ci.dynamic:
-				sig, _ := ci.instr.Common().Value.Type().Underlying().(*types.Signature)
-				for _, f := range g.addrTaken {
-					if sig != nil && types.Identical(stripRecv(f.Signature), sig) {
-						add(f, ci.instr)
+				ft := &funcTracer{P: P, seen: map[ssa.Value]bool{}, out: map[*ssa.Function]bool{}}
+				ft.trace(ci.instr.Common().Value, 0)
+				for f := range ft.out {
+					add(f, ci.instr)
+				}
+				if ft.unknown {
+					// value flow could not be followed: fall back to every address-taken module
+					// function of the same signature (sound, coarse)
+					sig, _ := ci.instr.Common().Value.Type().Underlying().(*types.Signature)
+					for _, f := range g.addrTaken {
+						if sig != nil && types.Identical(stripRecv(f.Signature), sig) {
+							add(f, ci.instr)
+						}
 					}
 				}
 			}
@@ -1013,4 +1022,269 @@ func debugRefLike(t types.Type) string {
 		s += fmt.Sprintf(" [%T %v valueonly=%v]", it.EmbeddedType(i), it.EmbeddedType(i), embeddedIsValueOnly(it.EmbeddedType(i)))
 	}
 	return s
+}
+
+// funcTracer follows a func-typed value back to the module functions it can
+// denote: function constants, closures, parameters (through the actual
+// arguments at every static call site), closure captures, locals, struct
+// fields (through every store to that field in the module), results of
+// module calls and phis. Values supplied by code outside the module (parameters
+// of exported API functions without internal callers) denote user functions,
+// which are outside the analysed program. `unknown` is set when the flow
+// cannot be followed.
+type funcTracer struct {
+	P       *Prog
+	seen    map[ssa.Value]bool
+	out     map[*ssa.Function]bool
+	unknown bool
+	seenSl  map[ssa.Value]bool
+}
+
+func (ft *funcTracer) trace(v ssa.Value, depth int) {
+	if v == nil || ft.seen[v] {
+		return
+	}
+	ft.seen[v] = true
+	if depth > 12 {
+		ft.unknown = true
+		return
+	}
+	P := ft.P
+	switch x := v.(type) {
+	case *ssa.Function:
+		if inModule(funcPkgPath(x)) {
+			ft.out[originOf(x)] = true
+		}
+	case *ssa.MakeClosure:
+		ft.out[originOf(x.Fn.(*ssa.Function))] = true
+	case *ssa.Const:
+		// nil func
+	case *ssa.ChangeType:
+		ft.trace(x.X, depth+1)
+	case *ssa.MakeInterface:
+		ft.trace(x.X, depth+1)
+	case *ssa.Phi:
+		for _, e := range x.Edges {
+			ft.trace(e, depth+1)
+		}
+	case *ssa.Parameter:
+		fn := x.Parent()
+		idx := -1
+		for i, p := range fn.Params {
+			if p == x {
+				idx = i
+			}
+		}
+		n := 0
+		for _, caller := range P.Funcs {
+			eachInstr(caller, func(_ *ssa.BasicBlock, _ int, in ssa.Instruction) {
+				ci := callOf(in)
+				if ci == nil || ci.static != fn {
+					return
+				}
+				args := ci.args()
+				if idx < len(args) {
+					n++
+					ft.trace(args[idx], depth+1)
+				}
+			})
+		}
+		if n == 0 {
+			if fn.Parent() != nil || !isExportedAPI(fn) {
+				// a closure or unexported function whose callers we cannot see statically
+				ft.unknown = true
+			}
+			// else: supplied by the library's user: outside the analysed program
+		}
+	case *ssa.FreeVar:
+		if b := freeVarBinding(x); b != nil {
+			ft.trace(b, depth+1)
+		} else {
+			ft.unknown = true
+		}
+	case *ssa.Alloc:
+		for _, st := range storesTo(x) {
+			ft.trace(st.Val, depth+1)
+		}
+	case *ssa.UnOp:
+		if x.Op != token.MUL {
+			ft.unknown = true
+			return
+		}
+		switch a := x.X.(type) {
+		case *ssa.Alloc, *ssa.FreeVar:
+			ft.trace(a, depth+1)
+		case *ssa.Global:
+			// package-level func variable: every store to it
+			for _, fn := range P.Funcs {
+				eachInstr(fn, func(_ *ssa.BasicBlock, _ int, in ssa.Instruction) {
+					if st, ok := in.(*ssa.Store); ok && st.Addr == ssa.Value(a) {
+						ft.trace(st.Val, depth+1)
+					}
+				})
+			}
+		case *ssa.FieldAddr:
+			_, f := fieldVar(a)
+			ft.traceField(f, depth)
+		case *ssa.IndexAddr:
+			// element of a slice of funcs (options, postTransforms): trace the slice
+			ft.traceSliceElems(a.X, depth+1)
+		default:
+			ft.unknown = true
+		}
+	case *ssa.Field:
+		_, f := fieldVar(x)
+		ft.traceField(f, depth)
+	case *ssa.Extract:
+		switch t := x.Tuple.(type) {
+		case *ssa.Call:
+			ft.traceCallResult(t, x.Index, depth)
+		case *ssa.TypeAssert:
+			ft.trace(t.X, depth+1)
+		default:
+			ft.unknown = true
+		}
+	case *ssa.TypeAssert:
+		ft.trace(x.X, depth+1)
+	case *ssa.Call:
+		ft.traceCallResult(x, 0, depth)
+	default:
+		ft.unknown = true
+	}
+}
+
+func isExportedAPI(fn *ssa.Function) bool {
+	if fn.Object() == nil {
+		return false
+	}
+	return fn.Object().Exported()
+}
+
+func (ft *funcTracer) traceField(f *types.Var, depth int) {
+	P := ft.P
+	if f == nil {
+		ft.unknown = true
+		return
+	}
+	// context fields carrying input data: func values asserted out of them come from the caller
+	if sameField(f, P.roles.FData) || sameField(f, P.roles.FValPtr) {
+		// zhttp/zjson factories are module closures of DpFactory type: found by signature
+		ft.unknown = true
+		return
+	}
+	n := 0
+	for _, fn := range P.Funcs {
+		eachInstr(fn, func(_ *ssa.BasicBlock, _ int, in ssa.Instruction) {
+			st, ok := in.(*ssa.Store)
+			if !ok {
+				return
+			}
+			if _, sf := fieldVar(st.Addr); sf != nil && sameField(sf, f) {
+				n++
+				ft.trace(st.Val, depth+1)
+			}
+		})
+	}
+	// composite literals of anonymous struct globals (zhttp.Config.Parsers) store through nested FieldAddr: covered above
+	_ = n
+}
+
+func (ft *funcTracer) traceSliceElems(sl ssa.Value, depth int) {
+	P := ft.P
+	sl = cv(sl)
+	if ft.seenSl == nil {
+		ft.seenSl = map[ssa.Value]bool{}
+	}
+	if ft.seenSl[sl] {
+		return
+	}
+	ft.seenSl[sl] = true
+	if depth > 14 {
+		ft.unknown = true
+		return
+	}
+	switch x := sl.(type) {
+	case *ssa.Parameter:
+		// variadic options / role slices: elements come from callers
+		fn := x.Parent()
+		idx := -1
+		for i, p := range fn.Params {
+			if p == x {
+				idx = i
+			}
+		}
+		n := 0
+		for _, caller := range P.Funcs {
+			eachInstr(caller, func(_ *ssa.BasicBlock, _ int, in ssa.Instruction) {
+				ci := callOf(in)
+				if ci == nil || ci.static != fn || idx >= len(ci.args()) {
+					return
+				}
+				n++
+				ft.traceSliceElems(ci.args()[idx], depth+1)
+			})
+		}
+		if n == 0 && (fn.Parent() != nil || !isExportedAPI(fn)) {
+			ft.unknown = true
+		}
+	case *ssa.UnOp:
+		if _, f := loadOfField(x); f != nil {
+			// role slice of a schema (tests, postTransforms): elements appended by builder methods
+			for _, fn := range P.Funcs {
+				eachInstr(fn, func(_ *ssa.BasicBlock, _ int, in ssa.Instruction) {
+					st, ok := in.(*ssa.Store)
+					if !ok {
+						return
+					}
+					if _, sf := fieldVar(st.Addr); sf != nil && sameField(sf, f) {
+						if c, ok := st.Val.(*ssa.Call); ok && callOf(c).builtin == "append" && len(c.Call.Args) == 2 {
+							ft.traceSliceElems(c.Call.Args[1], depth+1)
+						}
+					}
+				})
+			}
+			return
+		}
+		ft.unknown = true
+	case *ssa.Slice:
+		// slice literal: stores into the backing array
+		if al, ok := x.X.(*ssa.Alloc); ok && al.Referrers() != nil {
+			for _, rf := range *al.Referrers() {
+				if ia, ok := rf.(*ssa.IndexAddr); ok && ia.Referrers() != nil {
+					for _, u := range *ia.Referrers() {
+						if st, ok := u.(*ssa.Store); ok {
+							ft.trace(st.Val, depth+1)
+						}
+					}
+				}
+			}
+			return
+		}
+		ft.traceSliceElems(x.X, depth+1)
+	case *ssa.Const, *ssa.MakeSlice:
+	case *ssa.Phi:
+		for _, e := range x.Edges {
+			ft.traceSliceElems(e, depth+1)
+		}
+	default:
+		ft.unknown = true
+	}
+}
+
+func (ft *funcTracer) traceCallResult(c *ssa.Call, idx int, depth int) {
+	ci := callOf(c)
+	if ci.static == nil || ci.static.Blocks == nil || !inModule(funcPkgPath(ci.static)) {
+		if ci.static != nil && !inModule(funcPkgPath(ci.static)) {
+			return // std function returning a func: not a module function
+		}
+		ft.unknown = true
+		return
+	}
+	eachInstr(ci.static, func(_ *ssa.BasicBlock, _ int, in ssa.Instruction) {
+		if rt, ok := in.(*ssa.Return); ok {
+			if rvs, ok := retVals(rt); ok && idx < len(rvs) {
+				ft.trace(rvs[idx], depth+1)
+			}
+		}
+	})
 }
